@@ -43,10 +43,10 @@ def reviewed : List (String × String × String × List String × List String ×
    "stops",
    "Handler6.Close sets `closed` under the handler mutex and closes closeChan, which is the `wakeup` the loop took under the mutex (or the loop wakes after at most 2.8 s); the next iteration tests `closed` under the mutex and returns; StopHunt removes the MAC from huntList, same test"),
   ("icmp_spoofer.Handler6.startRADVS", "icmp_spoofer.RADVS.sendAdvertistementLoop", "loop",
-   ["icmp_spoofer.RADVS.sendAdvertistementLoop: case <-r.stopChannel → return"],
+   ["icmp_spoofer.RADVS.sendAdvertistementLoop: case <-r.stopChannel → return", "icmp_spoofer.RADVS.sendAdvertistementLoop: case <-ticker ∧ if closed → return"],
    ["icmp_spoofer.RADVS.sendAdvertistementLoop: <-r.stopChannel", "icmp_spoofer.RADVS.sendAdvertistementLoop: <-ticker"],
-   "LEAK",
-   "the loop ends only on RADVS.Stop (stopChannel); Handler6.Close neither calls Stop nor is its closeChan/closed consulted, so a router-advertisement server started with StartRADVS keeps sending after Close (and its ticker is never stopped). StartRADVS is outside the API list of the C09 statement"),
+   "stops",
+   "RADVS.Stop closes stopChannel and the select returns; Handler6.Close sets `closed` under the handler mutex and the loop reads it under the mutex on its next tick (at most one RetransTimer later) and returns, its deferred Stop releasing the ticker (fix d48a339; before it the loop ended only on RADVS.Stop and this row was the known leak)"),
   ("packet.Config.NewSession", "func literal", "loop",
    ["packet.Config.NewSession$go: case <-h.closeChan → return"],
    ["packet.Config.NewSession$go: <-h.closeChan", "packet.Config.NewSession$go: <-ticker.C"],
@@ -77,9 +77,8 @@ theorem goroutines_extractor_total : Gen.goroutinesUnknown = [] := by decide
 theorem goroutines_reviewed :
     Gen.goroutines.map (fun g => (g.1, g.2.1, g.2.2.1, g.2.2.2.1, g.2.2.2.2.1)) = reviewed.map key := by decide +kernel
 
-/-- goroutines that Close cannot stop (defects, not repaired) -/
-def knownLeaks : List (String × String) :=
-  [("icmp_spoofer.Handler6.startRADVS", "icmp_spoofer.RADVS.sendAdvertistementLoop")]
+/-- goroutines that Close cannot stop (defects, not repaired): none since fix d48a339 (RADVS loop) -/
+def knownLeaks : List (String × String) := []
 
 /-- every reviewed goroutine has a termination argument — except exactly the known leaks -/
 theorem no_unreviewed_leak :
